@@ -1218,7 +1218,8 @@ pub fn explore_cfg(cfg: &Cfg, ex: &Explore, props: &[&str], stats: &Stats, rep: 
             if let Some(m) = &out.machinery {
                 machinery.lock().unwrap().get_or_insert_with(|| format!("{m} (cfg {}, prefix {prefix:?})", cfg.name));
             }
-            {
+            // `keep` marks the explorer's re-runs (samples, replay-twice): count each execution once
+            if !keep {
                 let mut s = stats.lock().unwrap();
                 for (k, v) in &out.stats {
                     *s.entry(k.to_string()).or_insert(0) += v;
